@@ -118,6 +118,8 @@ def has_union(prog, t, seen=None) -> bool:
     if k in ("opt", "union"):
         return True
     if k == "cls":
+        if any(has_union(prog, x, seen) for x in t.get("args", [])):
+            return True
         if t["i"] in seen:
             return False
         seen.add(t["i"])
@@ -125,7 +127,7 @@ def has_union(prog, t, seen=None) -> bool:
     if k == "newtype":
         return has_union(prog, prog["newtypes"][t["i"]]["of"], seen)
     return any(has_union(prog, t[key], seen) for key in ("of", "key", "val") if isinstance(t.get(key), dict)) or \
-        any(has_union(prog, x, seen) for key in ("alts", "items") for x in t.get(key, []))
+        any(has_union(prog, x, seen) for key in ("alts", "items", "args") for x in t.get(key, []))
 
 
 def contains_marker(v, depth=0) -> bool:
